@@ -52,7 +52,15 @@ func runSolver(name string, script string, timeout time.Duration, wantModel bool
 	err := cmd.Run()
 	ms := time.Since(t0).Milliseconds()
 	text := out.String()
-	first := strings.TrimSpace(strings.SplitN(text, "\n", 2)[0])
+	first := ""
+	for _, ln := range strings.Split(text, "\n") {
+		ln = strings.TrimSpace(ln)
+		if ln == "" || strings.HasPrefix(ln, "WARNING") || strings.HasPrefix(ln, "(warning") {
+			continue
+		}
+		first = ln
+		break
+	}
 	res := SolverResult{Solver: name, MS: ms, Output: text}
 	switch first {
 	case "unsat", "sat", "unknown":
